@@ -40,6 +40,8 @@ def definitions(rng, sz):
     for pos in ("first", "middle", "last"):
         defs.append(IG.default_disabled_def(did, pos)); did += 1
     defs.append(IG.nodefault_def(did)); did += 1
+    defs.append(IG.unsized_def(did)); did += 1
+    defs.append(IG.unsized_def(did)); did += 1
     # more variants than a byte counts: 300 unit variants (10% disabled), 270 mixed ones
     defs.append(IG.shape(rng, did, 300, [1 if rng.random() < 0.1 else 0 for _ in range(300)], kinds="unit")); did += 1
     defs.append(IG.shape(rng, did, 270, [1 if rng.random() < 0.1 else 0 for _ in range(270)])); did += 1
